@@ -372,7 +372,8 @@ def matrix_cases(draw, tier):
         final = draw(variants(dtype))
         final["io"] = "string"
         post = {"touch": draw(touches(dtype)), "final": final,
-                "ops": [draw(st.fixed_dictionaries({"op": st.sampled_from(["del_col", "del_col", "append_col", "set_cell"]),
+                "ops": [draw(st.fixed_dictionaries({"op": st.sampled_from(["del_col", "del_col", "append_col", "set_cell", "self_concat", "self_concat",
+                                                                           "self_extend"]),
                                                     "i": st.integers(0, 10 ** 4), "r": st.integers(0, 10 ** 4),
                                                     "c": st.integers(0, 10 ** 4), "r2": st.integers(0, 10 ** 4),
                                                     "c2": st.integers(0, 10 ** 4)}))
@@ -433,11 +434,13 @@ def matrix_cases(draw, tier):
         route["cuts"] = cut_points(draw, ncols, 4) if route["interleave"] else []
         route["gap_every"] = draw(st.sampled_from([0, 0, 3, 10]))
         route["quote_all"] = draw(st.booleans())
+        route["blank_between"] = draw(st.booleans())
     if kind == "parse_phylip":
         route["interleaved"] = draw(st.booleans())
         route["cuts"] = cut_points(draw, ncols, 4)
         route["gap_every"] = draw(st.sampled_from([0, 0, 3, 10]))
         route["sep"] = draw(st.sampled_from([" ", "  ", "\t", "    "]))
+        route["blank_between"] = draw(st.booleans())
     if kind == "parse_fasta":
         route["width"] = draw(st.sampled_from([1, 2, 5, 60, 70, 1000]))
         route["blank_lines"] = draw(st.booleans())
@@ -493,7 +496,7 @@ def make_nexus(dtype, rows, route):
     out += [fmt + ";", "  MATRIX"]
     blocks = blocks_of(ncols, route["cuts"]) if route["interleave"] else [(0, ncols)]
     for bi, (a, b) in enumerate(blocks):
-        if bi:
+        if bi and route.get("blank_between", True):
             out.append("")
         for l, cells in rows:
             out.append("    %s  %s" % (q(l), chunk_text(dtype, cells[a:b], route["gap_every"])))
@@ -508,7 +511,7 @@ def make_phylip(dtype, rows, route):
     lab = (lambda l: l.ljust(10)) if route["strict"] else (lambda l: l + route.get("sep", "  "))
     if route["interleaved"]:
         for bi, (a, b) in enumerate(blocks):
-            if bi:
+            if bi and route.get("blank_between", True):
                 out.append("")
             for l, cells in rows:
                 out.append((lab(l) if bi == 0 else "") + chunk_text(dtype, cells[a:b], route["gap_every"]))
@@ -576,7 +579,8 @@ def known_key(info, fmt, failure=None):
     concatenate() on standard matrices), "cells": bool (NeXML cell markup)}"""
     if fmt == "nexus" and ";" in info["labels"]:
         return KF_NEXUS_SEMI
-    if fmt == "nexml" and info.get("fresh_concat_standard") and info.get("cells"):
+    if (fmt == "nexml" and info.get("fresh_concat_standard") and info.get("cells")
+            and (failure or "").startswith("KeyError@")):  # the writer cannot find the foreign state / alphabet
         return KF_CONCAT_STD
     if (fmt == "nexus" and info.get("subset_carrier_not_first")
             and failure == "LinkRequiredError@_get_char_matrix"):  # raised while the CHARSET statement is resolved
@@ -744,11 +748,19 @@ def build_source(ctx, case, want):
     if kind == "parse_nexus":
         text = make_nexus(dtype, want, route)
         ctx.sample("doc:nexus:%s" % ("interleaved" if route["interleave"] else "sequential"), text)
+        if route["interleave"]:
+            nb = len(blocks_of(len(want[0][1]), route["cuts"]))
+            ctx.cls("doc:nexus:interleaved:blocks=%s%s" % (nb if nb < 4 else "4+", "" if nb == 1 else (
+                ":blank_lines" if route.get("blank_between", True) else ":no_blank_lines")))
         return lib_call(ctx, "parse_generated_nexus", "C09.route_parse_nexus", info, "nexus",
                         cls.get, data=text, schema="nexus")
     if kind == "parse_phylip":
         text = make_phylip(dtype, want, route)
         ctx.sample("doc:phylip:%s" % ("interleaved" if route["interleaved"] else "sequential"), text)
+        nb = len(blocks_of(len(want[0][1]), route["cuts"]))
+        ctx.cls("doc:phylip:%s:blocks=%s%s" % ("interleaved" if route["interleaved"] else "sequential",
+                                               nb if nb < 4 else "4+", "" if nb == 1 or not route["interleaved"] else
+                                               (":blank_lines" if route.get("blank_between", True) else ":no_blank_lines")))
         return lib_call(ctx, "parse_generated_phylip", "C09.route_parse_phylip", info, "phylip",
                         cls.get, data=text, schema="phylip", strict=route["strict"], interleaved=route["interleaved"])
     if kind == "parse_fasta":
@@ -850,15 +862,32 @@ def check_matrix(ctx, case):
         info["fresh_concat_standard"] = False
         touch(ctx, dtype, m, post["touch"], extras, info, "re-read matrix")
         want = [(l, list(c)) for l, c in want]
-        seqs = [m[taxon] for taxon in m]
         rect = len(set(len(c) for _, c in want)) == 1
+        cur = {"m": m, "fresh_concat": False}
 
         def mutate():
             done = []
             for op in post["ops"]:
+                m = cur["m"]
+                seqs = [m[taxon] for taxon in m]
                 r, r2 = op["r"] % len(want), op["r2"] % len(want)
                 c = op["c"] % len(want[r][1])
-                if op["op"] == "del_col":
+                if op["op"] == "self_concat":
+                    # the matrix concatenated with itself (same object twice); concatenate() wants aligned rows and
+                    # a sequence for every taxon of the namespace
+                    if not rect or len(m) != len(m.taxon_namespace) or len(want[0][1]) > 200:
+                        continue
+                    cur["m"] = cls.concatenate([m, m])
+                    cur["fresh_concat"] = True
+                    for _, cells in want:
+                        cells.extend(list(cells))
+                elif op["op"] == "self_extend":
+                    if len(want[0][1]) > 200:
+                        continue
+                    m.extend_matrix(m)
+                    for _, cells in want:
+                        cells.extend(list(cells))
+                elif op["op"] == "del_col":
                     # (character subsets name column positions; keeping them in step with a deletion is the
                     # caller's business, so matrices carrying subsets keep their columns)
                     if not rect or len(want[0][1]) < 2 or m.character_subsets:
@@ -887,8 +916,13 @@ def check_matrix(ctx, case):
                 done.append(op["op"])
             return done
         done = lib_call(ctx, "mutate_sequences", "C09.mutate", info, None, mutate)
+        m = cur["m"]
+        info["fresh_concat_standard"] = cur["fresh_concat"] and dtype == "standard"
         for d in done:
             ctx.cls("epilogue:" + d)
+        if hops and hops[-1]["fmt"] == "nexml" and post["final"]["fmt"] == "nexml" and (
+                "self_concat" in done or "self_extend" in done):
+            ctx.cls("epilogue:nexml_read>self_concat_or_extend>nexml")
         got = read_rows(dtype, m)
         verdict(ctx, rows_equal(dtype, got, want), "mutation_visible_in_matrix", "C09.mutation_rows", info, None,
                 lambda: "after %r: got %s want %s" % (post["ops"], show(got), show(want)))
